@@ -583,6 +583,17 @@ def extension_ownership(ctx):
         rets = [r.value for f in cands for r in ast.walk(f.node) if isinstance(r, ast.Return)]
         return bool(cands) and bool(rets) and all(r is not None and is_fresh(r, depth + 1) for r in rets)
 
+    def yields_ext(v, depth=0):
+        """an extension constructor call, or a call of a function every return of which is one (a factory)"""
+        c = ctor_of(v)
+        if c is None or depth > 2:
+            return False
+        if c in ext_classes:
+            return True
+        cands = [f for f in idx.funcs.values() if f.name == c]
+        rets = [r_.value for f in cands for r_ in ast.walk(f.node) if isinstance(r_, ast.Return)]
+        return bool(cands) and bool(rets) and all(r_ is not None and yields_ext(r_, depth + 1) for r_ in rets)
+
     holders = set()
     stores = []
     for q, fi in idx.funcs.items():
@@ -599,7 +610,7 @@ def extension_ownership(ctx):
                 for t_ in (t.elts if isinstance(t, ast.Tuple) else [t]):
                     if isinstance(t_, ast.Attribute):
                         stores.append((fi, n, U(t_.value), t_.attr, v))
-                        if ctor_of(v) in ext_classes:
+                        if yields_ext(v):
                             holders.add(t_.attr)
     ctx.need(holders, "no attribute is ever given an extension object")
     seen = 0
